@@ -66,9 +66,21 @@ def run_cell(cell, rec, seed):
         ref = lj - lm  # ln p(x_a | x_b) at (x_a^n, x_b^n)
         ns = orc.mvn_logpdf_abs(x, t.mu, t.Sigma) + orc.mvn_logpdf_abs(
             xb, t.mu[:, b], t.Sigma[:, b][:, :, b])
+        a2 = np.asarray(rng.permutation(a))
+        p_full = p
+        if rng.random() < 0.3:
+            # history: conditioned on the same coordinates while it still was another density,
+            # then overwritten in place with update()
+            def warm(o):
+                o.condition_on(JI(b))
+                o.condition_on_explicit(JI(b), JI(a2))
+            ph = _call(rec, "pdf_via_update", lambda: build.pdf_via_update(rng, t, diag, warm=warm),
+                       info)
+            if ph is not None:
+                p = ph
+                info = dict(info, via_update=True)
         c = _call(rec, "condition_on", lambda: p.condition_on(JI(b)), info)
         variants = [("condition_on", c, a)]
-        a2 = np.asarray(rng.permutation(a))
         ce = _call(rec, "condition_on_explicit",
                    lambda: p.condition_on_explicit(JI(b), JI(a2)), info)
         variants.append(("condition_on_explicit", ce, a2))
